@@ -101,6 +101,8 @@ type FnCtx struct {
 	deps        map[string]bool
 	isMacro     map[string]bool
 	ghostFns    map[string]string // ghost function name -> current SMT symbol
+	axiomsDone  map[string]bool
+	frameExcept []Val
 }
 
 type KnownFinding struct {
@@ -251,8 +253,10 @@ func (c *FnCtx) heapSym(st *State, key, sort string, nargs int) string {
 	if nargs == 1 {
 		args = []string{"Int"}
 	}
-	c.declare(name, args, sort)
-	c.heapRangeAxiom(key, name, nargs)
+	if !c.declared[name] {
+		c.declare(name, args, sort)
+		c.heapRangeAxiom(key, name, nargs)
+	}
 	return name
 }
 
@@ -293,7 +297,36 @@ func (c *FnCtx) readElem(st *State, elem types.Type, ref, idx string) Val {
 	for _, f := range c.typeFacts(v) {
 		c.fact(f)
 	}
+	c.entryRefFacts(v)
 	return v
+}
+
+// entryRefFacts: references read out of the entry heap were allocated before the call.
+func (c *FnCtx) entryRefFacts(v Val) {
+	fromEntry := func(t string) bool {
+		if !strings.HasPrefix(t, "(H_") && !strings.HasPrefix(t, "(P_") {
+			return false
+		}
+		sym := t[1:]
+		if i := strings.IndexByte(sym, ' '); i >= 0 {
+			sym = sym[:i]
+		}
+		return strings.HasSuffix(sym, "_0")
+	}
+	switch v.K {
+	case KSlice:
+		if fromEntry(v.ref()) {
+			c.fact(sx("<", v.ref(), "alloc0"))
+		}
+	case KPtr:
+		if fromEntry(v.S) {
+			c.fact(sx("<", v.S, "alloc0"))
+		}
+	case KStruct, KArray, KTuple:
+		for _, f := range v.F {
+			c.entryRefFacts(f)
+		}
+	}
 }
 
 func (c *FnCtx) newHeapVersion(key string) string {
@@ -434,6 +467,7 @@ func (c *FnCtx) readPtr(st *State, elem types.Type, addr string) Val {
 	for _, f := range c.typeFacts(v) {
 		c.fact(f)
 	}
+	c.entryRefFacts(v)
 	return v
 }
 
